@@ -20,3 +20,14 @@ func (bal *BalanceGslb) VerifRetryMax() int {
 	defer bal.lock.Unlock()
 	return bal.retryMax
 }
+
+// VerifSubFor returns the name of the sub-cluster a hash key is balanced to (harness-only accessor).
+func (bal *BalanceGslb) VerifSubFor(value []byte) string {
+	bal.lock.Lock()
+	defer bal.lock.Unlock()
+	sub, err := bal.subClusterBalance(value)
+	if err != nil || sub == nil {
+		return "<none>"
+	}
+	return sub.Name
+}
